@@ -144,6 +144,7 @@ spec fn out_of(f: FillValues) -> Seq<Result<Value, IoError>> { out_spec(pending(
 
 impl FillValues {
 //@extract method bigtools/src/utils/fill.rs next "Iterator for FillValues"
+//@rule R16
 //@rule R8
 //@sub /Option<Self::Item>/ => Option<Result<Value, IoError>>
 //@ret r
@@ -228,6 +229,7 @@ impl FillValues {
 
 // ---------------- constructors: establish the invariant and the initial cursor ----------------
 //@extract fn bigtools/src/utils/fill.rs fill
+//@rule R16
 //@rule R8
 //@sub /pub fn fill<I>\(iter: I\)/ => fn fill(iter: VIter)
 //@sub /-> impl Iterator<Item = io::Result<Value>> \+ Send\s*where\s*I: Iterator<Item = io::Result<Value>> \+ Send,/ => -> FillValues
@@ -244,6 +246,7 @@ impl FillValues {
 //@end
 
 //@extract fn bigtools/src/utils/fill.rs fill_start_to_end
+//@rule R16
 //@rule R8
 //@sub /pub fn fill_start_to_end<I>\(/ => fn fill_start_to_end(
 //@sub /iter: I,/ => iter: VIter,
